@@ -7,6 +7,35 @@ import fscommon
 NEEDS_BINS = True
 
 
+def password_scenarios(ctx):
+    """CP/M 3 passwords: removing the password of a name that is too long must not remove that of the file whose name it is cut down to"""
+    from cliutil import run as cli, sha
+    d = tempfile.mkdtemp(dir=fw.BUILD)
+    try:
+        for ty, kind in [('do', '5.25in'), ('imd', '5.25in-kayii')]:
+            p = os.path.join(d, f'pw.{ty}')
+            if cli(['mkdsk', '-o', 'cpm3', '-t', ty, '-k', kind, '-v', 'LAB', '-d', p])[0] != 0:
+                continue
+            cli(['put', '-d', p, '-f', 'LONGNAME.EXT', '-t', 'txt'], stdin=b'TEXT\n')
+            if cli(['protect', '-d', p, '-f', 'LONGNAME.EXT', '-p', 'PW', '--read'])[0] != 0:
+                continue
+            before = sha(p)
+            for nm in ['LONGNAMEXYZ.EXTRA', 'LONGNAME.EXTRA', 'LONGNAMEX.EXT']:
+                rc, out, err = cli(['unprotect', '-d', p, '-f', nm])
+                ctx.evaluations += 1
+                if sha(p) != before:
+                    ctx.failures.append({'cls': 'cpm3:password-removed-through-other-name', 'case': f'a2kit unprotect -f {nm} (the volume holds LONGNAME.EXT, protected)',
+                                         'detail': f'exit status {rc} and the image changed: the protection of LONGNAME.EXT is gone'})
+                    break
+                ctx.nontrivial.add(f'cpm3 {ty} unprotect {nm}')
+            rc, _, _ = cli(['unprotect', '-d', p, '-f', 'LONGNAME.EXT'])
+            ctx.evaluations += 1
+            if rc != 0 or sha(p) == before:
+                ctx.failures.append({'cls': 'cpm3:unprotect-refused', 'case': 'a2kit unprotect -f LONGNAME.EXT', 'detail': f'exit status {rc}, image changed: {sha(p) != before}'})
+    finally:
+        shutil.rmtree(d, ignore_errors=True)
+
+
 def dot2mg_scenarios(ctx):
     """a 2MG container flagged write-protected: delete, rename, lock, retype, put of a file, of a sector, a block and a raw track
     must all be refused and leave the file untouched, reading still works, and clearing the flag makes them possible again"""
@@ -72,6 +101,7 @@ def dot2mg_scenarios(ctx):
 def run(ctx, model_ok=True):
     fscommon.standard_run(ctx, 'C19', opts='r', lock_heavy=True, model_ok=model_ok)
     dot2mg_scenarios(ctx)
+    password_scenarios(ctx)
 
 def replay(ctx, rp):
     f = rp.get('failure')
